@@ -1,6 +1,6 @@
 SPECIFICATION MCSpec
 CONSTANTS
-  MaxSend = 5
+  MaxSend = 6
   Variants = {"onetime", "longterm"}
   Modes = {"single", "both"}
   PreKeyGuard = TRUE
